@@ -533,7 +533,20 @@ pub fn expand(line: &str) -> Option<(String, Box<dyn FnOnce(&mut Ctx) -> String>
             }
         }
     }
-    let full = format!("xadm {} {} {} {} {}", name, env, vals.len(), vals.join(" "), bound).replace("  ", " ");
+    // set_adaptive_fee_constants: the MODEL is given the stored constants and the request (which arguments are present)
+    // and runs its own handler (`setAdaptiveFeeConstants`: merge, unchanged?, valid?); the harness keeps its own merge in
+    // `bound` for the stored-value oracle below
+    let model_bound = if name == "SetAdaptiveFeeConstants" {
+        let mask = if v % 2 == 1 { 0x7f } else { (v / 2) % 128 };
+        let existing: [u64; 7] = [30, 600, 5000, 4000, 350_000, TS as u64, TS as u64];
+        let e: Vec<String> = existing.iter().map(|x| x.to_string()).collect();
+        let m: Vec<String> = (0..7).map(|i| if mask & (1 << i) != 0 { "1".to_string() } else { "0".to_string() }).collect();
+        let r: Vec<String> = afc_used.iter().map(|x| x.to_string()).collect();
+        format!("afcset {} {} {} {}", TS, e.join(" "), m.join(" "), r.join(" "))
+    } else {
+        bound.clone()
+    };
+    let full = format!("xadm {} {} {} {} {}", name, env, vals.len(), vals.join(" "), model_bound).replace("  ", " ");
     // the bound the property states for this setter (independent of the program's validators)
     let bound_ok = {
         let bt = toks(&bound);
